@@ -210,42 +210,32 @@ fn c14_known_eval_expr_not() {
 // ------------------------------------------------------------------------------------------------
 // C20: integer arithmetic
 // ------------------------------------------------------------------------------------------------
-fn any_arith_op() -> B {
-    let w: u8 = kani::any();
-    kani::assume(w < 5);
-    match w { 0 => B::Plus, 1 => B::Minus, 2 => B::Multiply, 3 => B::Divide, _ => B::Modulo }
-}
-fn exact(a: i64, op: B, b: i64) -> Option<i128> {
-    let (x, y) = (a as i128, b as i128);
+/// oracle: Rust's checked integer arithmetic (None = the mathematical result is not an i64, or division by zero)
+fn exact(a: i64, op: B, b: i64) -> Option<i64> {
     match op {
-        B::Plus => Some(x + y),
-        B::Minus => Some(x - y),
-        B::Multiply => Some(x * y),
-        B::Divide => if y == 0 { None } else { Some(x / y) },
-        _ => if y == 0 { None } else { Some(x % y) },
+        B::Plus => a.checked_add(b),
+        B::Minus => a.checked_sub(b),
+        B::Multiply => a.checked_mul(b),
+        B::Divide => a.checked_div(b),
+        _ => a.checked_rem(b),
     }
 }
 
-//@ props=C20 kind=proof
-/// Int (+,-,*,/,%) Int: when the mathematical result fits in i64 the kernel returns exactly it; division
-/// and modulo by zero return NULL (None); NULL in => NULL out.  (Results that leave i64 are F-C20-1.)
-#[kani::proof]
-#[kani::stub(eyre::capture_handler, vs::capture_handler)]
-#[kani::stub(eyre::private::new_adhoc, vs::new_adhoc)]
-#[kani::stub(eyre::private::format_err, vs::format_err)]
-#[kani::stub(alloc::fmt::format, vs::format)]
-#[kani::unwind(2)]
-fn c20_int_arithmetic_exact_when_representable() {
+fn arith_case(op: B) {
     let p = pred();
     let (a, b): (i64, i64) = (kani::any(), kani::any());
-    let op = any_arith_op();
     let e = exact(a, op, b);
-    if let Some(v) = e { kani::assume(v >= i64::MIN as i128 && v <= i64::MAX as i128); }
+    // this obligation covers the representable results; results that leave i64 are F-C20-1
+    let div0 = b == 0 && (op == B::Divide || op == B::Modulo);
+    kani::assume(e.is_some() || div0);
     let got = p.eval_binary_op(&Value::Int(a), &op, &Value::Int(b));
-    match (e, got) {
-        (Some(v), Some(Value::Int(g))) => assert!(g as i128 == v),
-        (None, None) => {}
-        _ => assert!(false),
+    if div0 {
+        assert!(got.is_none()); // division / modulo by zero yields NULL
+    } else {
+        match (e, got) {
+            (Some(v), Some(Value::Int(g))) => assert!(g == v),
+            _ => assert!(false),
+        }
     }
     // NULL in => NULL out (None is how this evaluator spells NULL for arithmetic)
     let n1 = p.eval_binary_op(&Value::Null, &op, &Value::Int(b));
@@ -254,10 +244,30 @@ fn c20_int_arithmetic_exact_when_representable() {
     core::mem::forget(p);
 }
 
+macro_rules! arith_harness {
+    ($name:ident, $op:expr) => {
+        //@ props=C20 kind=proof timeout=900
+        /// Int <op> Int over ALL i64 pairs whose mathematical result is an i64: the kernel returns exactly
+        /// that result; division and modulo by zero return NULL; NULL in => NULL out
+        #[kani::proof]
+        #[kani::stub(eyre::capture_handler, vs::capture_handler)]
+        #[kani::stub(eyre::private::new_adhoc, vs::new_adhoc)]
+        #[kani::stub(eyre::private::format_err, vs::format_err)]
+        #[kani::stub(alloc::fmt::format, vs::format)]
+        #[kani::unwind(2)]
+        fn $name() { arith_case($op); }
+    };
+}
+arith_harness!(c20_int_add_exact, B::Plus);
+arith_harness!(c20_int_sub_exact, B::Minus);
+arith_harness!(c20_int_mul_exact, B::Multiply);
+arith_harness!(c20_int_div_exact, B::Divide);
+arith_harness!(c20_int_mod_exact, B::Modulo);
+
 //@ props=C20 kind=known finding=F-C20-1
 /// KNOWN FINDING F-C20-1: integer overflow must be reported, not wrapped and not a crash: for all i64
-/// a, b the kernel must return without an arithmetic-overflow panic (fails: i64::MAX + 1,
-/// i64::MIN / -1, i64::MIN % -1, 3037000500 * 3037000500)
+/// a, b, `a + b` / `a - b` must return without an arithmetic-overflow panic (fails e.g. i64::MAX + 1; the
+/// same holds for `*`, and for i64::MIN / -1 and i64::MIN % -1)
 #[kani::proof]
 #[kani::stub(eyre::capture_handler, vs::capture_handler)]
 #[kani::stub(eyre::private::new_adhoc, vs::new_adhoc)]
@@ -267,10 +277,11 @@ fn c20_int_arithmetic_exact_when_representable() {
 fn c20_known_int_overflow() {
     let p = pred();
     let (a, b): (i64, i64) = (kani::any(), kani::any());
-    let op = any_arith_op();
+    let minus: bool = kani::any();
+    let op = if minus { B::Minus } else { B::Plus };
     let got = p.eval_binary_op(&Value::Int(a), &op, &Value::Int(b)); // Kani's overflow checks are the obligation
     if let (Some(v), Some(Value::Int(g))) = (exact(a, op, b), &got) {
-        assert!(*g as i128 == v); // and never a wrapped value
+        assert!(*g == v);
     }
     core::mem::forget(p);
 }
